@@ -658,3 +658,84 @@ Proof.
   split; [|split; [exact tree_nonvacuous_dir_creates|split; [exact tree_nonvacuous_zip_refuses|vm_compute; repeat split]]].
   split; [repeat split; try discriminate|]; repeat split; cbn; intuition discriminate.
 Qed.
+
+(* ================================================================ round 5: PERSISTENT faults, retry helpers
+   A fault plan pl j a says whether attempt a at effect j fails (one_shot k / persistent k / anything else).
+   retry_run r pl = the protocol with a helper that repeats a failing effect up to r times and then lets the
+   exception propagate; swallow_run = the helper whose give-up test never fires (model/C08_Model_Retry.v). *)
+From QV.model Require Import C08_Model_Retry.
+From QV.proof Require Import C08_Proofs_Retry.
+
+(* whatever the plan and the number of repetitions: the run with ONE fault at the first effect whose attempts
+   are all used up (none: the uninterrupted save) -- so every theorem above speaks about it *)
+Theorem C08_retry_run_reduces :
+  forall (r : nat) (pl : plan) (prog : list effect) (fs : fsys),
+    retry_run r pl prog fs = run (first_exhausted r pl 0 (List.length prog)) prog fs.
+Proof. exact retry_run_reduces. Qed.
+Print Assumptions C08_retry_run_reduces.
+
+(* an effect that fails at EVERY attempt still fails however often it is repeated: the save ends as with the
+   fault at k (exception out, target absent / unreadable / as before) *)
+Theorem C08_retry_persistent_still_fails :
+  forall (r : nat) (pl : plan) (k : nat) (prog : list effect) (fs : fsys),
+    (forall a, pl k a = true) -> (forall j, j < k -> pl j 0 = false) -> k < List.length prog ->
+    retry_run r pl prog fs = run k prog fs.
+Proof. exact retry_persistent_still_fails. Qed.
+Print Assumptions C08_retry_persistent_still_fails.
+
+(* faults that leave one of the r + 1 attempts working at every effect are absorbed: the uninterrupted save
+   (the check does not report a one-shot fault that a retry overcomes) *)
+Theorem C08_retry_absorbs :
+  forall (r : nat) (pl : plan) (prog : list effect) (fs : fsys),
+    (forall j, exists a, a <= r /\ pl j a = false) ->
+    retry_run r pl prog fs = run (List.length prog) prog fs.
+Proof. exact retry_absorbs. Qed.
+Print Assumptions C08_retry_absorbs.
+
+Theorem C08_retry_one_shot_absorbed :
+  forall (r k : nat) (prog : list effect) (fs : fsys),
+    1 <= r -> retry_run r (one_shot k) prog fs = run (List.length prog) prog fs.
+Proof. exact retry_one_shot_absorbed. Qed.
+Print Assumptions C08_retry_one_shot_absorbed.
+
+(* the code as it is (no helper): a one-shot and a persistent fault at k are the same run *)
+Theorem C08_no_helper_one_shot_is_persistent :
+  forall (k : nat) (prog : list effect) (fs : fsys),
+    k < List.length prog ->
+    retry_run 0 (one_shot k) prog fs = run k prog fs /\ retry_run 0 (persistent k) prog fs = run k prog fs.
+Proof. intros k prog fs H. split; [exact (retry_zero_is_run k prog fs H)|exact (retry_persistent_one k 0 prog fs H)]. Qed.
+Print Assumptions C08_no_helper_one_shot_is_persistent.
+
+(* no partial object becomes loadable under EVERY fault plan and every number of repetitions *)
+Theorem C08_retry_no_partial_loadable :
+  forall (markers : list item) (st : store) (m : mode) (p ts tz : path) (ws zs : list item)
+         (fs : fsys) (r : nat) (pl : plan),
+    p <> ts /\ p <> tz /\ ts <> tz /\ fs ts = Absent /\ fs tz = Absent ->
+    match load_model markers (fst (retry_run r pl (save_prog st m p ts tz ws zs) fs)) p with
+    | LErr => True
+    | LObj c => load_model markers fs p = LObj c \/ c = final_content st ws zs
+    end.
+Proof. exact retry_no_partial_loadable. Qed.
+Print Assumptions C08_retry_no_partial_loadable.
+
+(* NECESSITY: the helper that drops the exception after its last attempt (a give-up test that never fires)
+   breaks the property: a persistent fault at one item write leaves a loadable object without that item, in
+   place of the earlier complete object, and the save reports success *)
+Theorem C08_swallowing_retry_refuted : ~ swallow_statement.
+Proof. exact swallow_refuted. Qed.
+Print Assumptions C08_swallowing_retry_refuted.
+
+Example C08_nonvacuous_retry :
+  (* persistent fault at the third item write, two repetitions: the save fails, the earlier object stays *)
+  (let r := retry_run 2 (persistent 4) (save_prog SDir MO 0 1 2 [1; 2; 3]%Z [])
+                      (fun q => match q with 0 => Dir [1; 7]%Z | _ => Absent end) in
+   snd r = Faulted /\ fst r 0 = Dir [1; 7]%Z /\ fst r 1 = Absent) /\
+  (* one-shot fault at the same write: absorbed, the complete new object *)
+  (let r := retry_run 2 (one_shot 4) (save_prog SDir MO 0 1 2 [1; 2; 3]%Z [])
+                      (fun q => match q with 0 => Dir [1; 7]%Z | _ => Absent end) in
+   snd r = Done /\ fst r 0 = Dir [1; 2; 3]%Z) /\
+  (* the swallowing helper: success reported, the item is missing, the earlier object is gone *)
+  (let r := swallow_run 2 (persistent 3) (save_prog SDir MO 0 1 2 [1; 2; 3]%Z [])
+                        (fun q => match q with 0 => Dir [1; 7]%Z | _ => Absent end) in
+   snd r = Done /\ fst r 0 = Dir [1; 3]%Z).
+Proof. vm_compute. repeat split. Qed.
